@@ -93,127 +93,137 @@ func replayBind(args []string) (any, error) {
 			sum.miss("bind-sig:"+sigText(v.Params), map[string]any{"params": v.Params, "unexpected_invalid": e.Error()})
 			return nil
 		}
-		parts := []string{}
-		npos := 0
-		argLit := func(k int) string { // the literal of argument k (1-based): kind by position, value carries k
-			switch k % 5 {
-			case 1:
-				return fmt.Sprint(k)
-			case 2:
-				return fmt.Sprintf("\"s%d\"", k)
-			case 3:
-				return fmt.Sprintf("%d.5", k)
-			case 4:
-				return "true"
-			}
-			return fmt.Sprintf("[%d]", k)
-		}
-		argVal := func(k int) any {
-			switch k % 5 {
-			case 1:
-				return int64(k)
-			case 2:
-				return fmt.Sprintf("s%d", k)
-			case 3:
-				return float64(k) + 0.5
-			case 4:
-				return true
-			}
-			return []any{int64(k)}
-		}
-		for k, a := range v.Args {
-			if a.Named {
-				parts = append(parts, fmt.Sprintf("%s=%s", a.Name, argLit(k+1)))
-			} else {
-				parts = append(parts, argLit(k+1))
-				npos++
-			}
-		}
-		text := "f(" + strings.Join(parts, ", ") + ")"
-		sig := "bind:" + sigText(v.Params) + text
-		var got []any
-		var getErr *errchain.PlError
-		typed := map[string][]bool{} // getter -> success per parameter
-		fn := map[string]*runtimev2.Fn{"f": {
-			CallCheck: func(ctx *runtimev2.Task, e *ast.CallExpr) *errchain.PlError {
-				return runtimev2.CheckPassParam(ctx, e, params)
-			},
-			Call: func(ctx *runtimev2.Task, e *ast.CallExpr) *errchain.PlError {
-				for i := range params {
-					x, err := runtimev2.GetParam(ctx, e, params, i)
-					if err != nil {
-						getErr = err
-						return err
-					}
-					got = append(got, x)
-					_, e1 := runtimev2.GetParamInt(ctx, e, params, i)
-					_, e2 := runtimev2.GetParamFloat(ctx, e, params, i)
-					_, e3 := runtimev2.GetParamBool(ctx, e, params, i)
-					_, e4 := runtimev2.GetParamString(ctx, e, params, i)
-					_, e5 := runtimev2.GetParamList(ctx, e, params, i)
-					_, e6 := runtimev2.GetParamMap(ctx, e, params, i)
-					for g, ee := range map[string]*errchain.PlError{"int": e1, "float": e2, "bool": e3, "str": e4, "list": e5, "map": e6} {
-						typed[g] = append(typed[g], ee == nil)
-					}
+		for variant := 0; variant < 2; variant++ { // variant 1: every second argument is the literal nil (a given nil is still given)
+			parts := []string{}
+			npos := 0
+			argLit := func(k int) string { // the literal of argument k (1-based): kind by position, value carries k
+				if variant == 1 && k%2 == 0 {
+					return "nil"
 				}
+				switch k % 5 {
+				case 1:
+					return fmt.Sprint(k)
+				case 2:
+					return fmt.Sprintf("\"s%d\"", k)
+				case 3:
+					return fmt.Sprintf("%d.5", k)
+				case 4:
+					return "true"
+				}
+				return fmt.Sprintf("[%d]", k)
+			}
+			argVal := func(k int) any {
+				if variant == 1 && k%2 == 0 {
+					return nil
+				}
+				switch k % 5 {
+				case 1:
+					return int64(k)
+				case 2:
+					return fmt.Sprintf("s%d", k)
+				case 3:
+					return float64(k) + 0.5
+				case 4:
+					return true
+				}
+				return []any{int64(k)}
+			}
+			for k, a := range v.Args {
+				if a.Named {
+					parts = append(parts, fmt.Sprintf("%s=%s", a.Name, argLit(k+1)))
+				} else {
+					parts = append(parts, argLit(k+1))
+					npos++
+				}
+			}
+			text := "f(" + strings.Join(parts, ", ") + ")"
+			sig := "bind:" + sigText(v.Params) + text
+			var got []any
+			var getErr *errchain.PlError
+			typed := map[string][]bool{} // getter -> success per parameter
+			fn := map[string]*runtimev2.Fn{"f": {
+				CallCheck: func(ctx *runtimev2.Task, e *ast.CallExpr) *errchain.PlError {
+					return runtimev2.CheckPassParam(ctx, e, params)
+				},
+				Call: func(ctx *runtimev2.Task, e *ast.CallExpr) *errchain.PlError {
+					for i := range params {
+						x, err := runtimev2.GetParam(ctx, e, params, i)
+						if err != nil {
+							getErr = err
+							return err
+						}
+						got = append(got, x)
+						_, e1 := runtimev2.GetParamInt(ctx, e, params, i)
+						_, e2 := runtimev2.GetParamFloat(ctx, e, params, i)
+						_, e3 := runtimev2.GetParamBool(ctx, e, params, i)
+						_, e4 := runtimev2.GetParamString(ctx, e, params, i)
+						_, e5 := runtimev2.GetParamList(ctx, e, params, i)
+						_, e6 := runtimev2.GetParamMap(ctx, e, params, i)
+						for g, ee := range map[string]*errchain.PlError{"int": e1, "float": e2, "bool": e3, "str": e4, "list": e5, "map": e6} {
+							typed[g] = append(typed[g], ee == nil)
+						}
+					}
+					return nil
+				},
+			}}
+			sc, lerr := engine.ParseV2("s.p", text, fn)
+			if (lerr == nil) != v.Accepted {
+				sum.miss(sig, map[string]any{"params": v.Params, "call": text, "want_accepted": v.Accepted, "load_err": fmt.Sprint(lerr)})
 				return nil
-			},
-		}}
-		sc, lerr := engine.ParseV2("s.p", text, fn)
-		if (lerr == nil) != v.Accepted {
-			sum.miss(sig, map[string]any{"params": v.Params, "call": text, "want_accepted": v.Accepted, "load_err": fmt.Sprint(lerr)})
-			return nil
-		}
-		if v.Accepted {
-			sum.Distinct++
-			rerr := sc.Run(nil)
-			want := []any{}
-			for i, b := range v.Binding {
-				switch b[0].(string) {
-				case "arg":
-					want = append(want, argVal(int(b[1].(float64))))
-				case "default":
-					want = append(want, fmt.Sprintf("def%d", i+1))
-				case "rest":
-					rest := []any{}
-					for k := int(b[1].(float64)); k <= npos; k++ {
-						rest = append(rest, argVal(k))
-					}
-					want = append(want, rest)
-				}
 			}
-			norm := func(xs []any) []any {
-				out := make([]any, len(xs))
-				for i, x := range xs {
-					if s, ok := x.([]any); ok && len(s) == 0 {
-						out[i] = []any{}
-					} else {
-						out[i] = x
+			if v.Accepted {
+				sum.Distinct++
+				rerr := sc.Run(nil)
+				want := []any{}
+				for i, b := range v.Binding {
+					switch b[0].(string) {
+					case "arg":
+						want = append(want, argVal(int(b[1].(float64))))
+					case "default":
+						want = append(want, fmt.Sprintf("def%d", i+1))
+					case "rest":
+						rest := []any{}
+						for k := int(b[1].(float64)); k <= npos; k++ {
+							rest = append(rest, argVal(k))
+						}
+						want = append(want, rest)
 					}
 				}
-				return out
-			}
-			if rerr != nil || getErr != nil || !reflect.DeepEqual(norm(got), norm(want)) {
-				sum.miss(sig, map[string]any{"params": v.Params, "call": text, "want": fmt.Sprint(want), "got": fmt.Sprint(got), "run_err": fmt.Sprint(rerr)})
-			} else {
-				for i, kind := range v.Kinds {
-					for g, oks := range typed {
-						wantOK := kind == g
-						if kind == "rest" {
-							wantOK = g == "list" // a variadic tail is a list (nil when empty: only the list getter is checked loosely)
-							if g != "list" || len(got[i].([]any)) == 0 {
-								continue
+				norm := func(xs []any) []any {
+					out := make([]any, len(xs))
+					for i, x := range xs {
+						if s, ok := x.([]any); ok && len(s) == 0 {
+							out[i] = []any{}
+						} else {
+							out[i] = x
+						}
+					}
+					return out
+				}
+				if rerr != nil || getErr != nil || !reflect.DeepEqual(norm(got), norm(want)) {
+					sum.miss(sig, map[string]any{"params": v.Params, "call": text, "want": fmt.Sprint(want), "got": fmt.Sprint(got), "run_err": fmt.Sprint(rerr)})
+				} else if variant == 0 {
+					for i, kind := range v.Kinds {
+						for g, oks := range typed {
+							wantOK := kind == g
+							if kind == "rest" {
+								wantOK = g == "list" // a variadic tail is a list (nil when empty: only the list getter is checked loosely)
+								if g != "list" || len(got[i].([]any)) == 0 {
+									continue
+								}
+							}
+							if i < len(oks) && oks[i] != wantOK {
+								sum.miss(sig+":getter:"+g, map[string]any{"params": v.Params, "call": text, "param": i, "bound_kind": kind, "getter": g,
+									"want_success": wantOK, "got_success": oks[i]})
 							}
 						}
-						if i < len(oks) && oks[i] != wantOK {
-							sum.miss(sig+":getter:"+g, map[string]any{"params": v.Params, "call": text, "param": i, "bound_kind": kind, "getter": g,
-								"want_success": wantOK, "got_success": oks[i]})
-						}
 					}
 				}
 			}
+			if variant == 0 {
+				sum.sample(map[string]any{"params": sigText(v.Params), "call": text, "accepted": v.Accepted, "binding": v.Binding})
+			}
 		}
-		sum.sample(map[string]any{"params": sigText(v.Params), "call": text, "accepted": v.Accepted, "binding": v.Binding})
 		return nil
 	})
 	return sum, err
